@@ -22,5 +22,5 @@ def run(rep, tier):
         from ..engines import index_rules
         rep.call(index_rules.cropped_row_slices, rep, prog, "C04.row-width")
         n = c03.arith(rep, prog, "C04.arith", only=lambda f: any(
-            f.file == s or f.file.startswith(s) for s in VALIDATOR_FILES))
+            f.file == prog.file_now(s) or f.file.startswith(s) for s in VALIDATOR_FILES))
         rep.floor("C04.arith", "arithmetic asserts in validators/containers", n, 30)
